@@ -34,7 +34,8 @@ User: 'user' name=ID ('ref' r=[Obj] | 'many' rs+=[Obj][',']) ';';
 KINDS = ['syntax', 'unknown', 'notunique', 'unresolvable', 'notunique-in-import']
 # line terminators of model files (read in text mode: each is one line end)
 EOLS = ['\n', '\r\n', '\r']
-WHERE = ['string', 'main', 'imported', 'main-with-import', 'imported-first-of-two', 'string-global-repo-provider']
+WHERE = ['string', 'main', 'imported', 'main-with-import', 'imported-first-of-two', 'string-global-repo-provider',
+         'string-builtin-model']
 FORMS = ['single', 'list1', 'list2', 'list3']
 GAPS = [' ', '\n', '\n\n  ', '\t ', ' \n\t']
 MARK = '@@'
@@ -60,6 +61,9 @@ def build(kind, where, form, gap):
     """{'main': text, 'lib.m': text} (or string model) and the offending file"""
     files = {}
     import_dup = True
+    if where == 'string-builtin-model':
+        where = 'string'
+        import_dup = False        # a builtin model (built from a string, too) holds the duplicates
     if where == 'string-global-repo-provider':
         where = 'string'
         import_dup = False        # the pattern of the global-repository provider finds dup.m
@@ -103,6 +107,12 @@ def load(kind, where, form, gap, eol='\n'):
     if kind == 'notunique-in-import' and where == 'string':
         where = 'main'              # an import statement needs a file to be relative to
     mm = metamodel_from_str(GRAMMAR)
+    if where == 'string-builtin-model':
+        from textx.scoping import ModelRepository
+        builtins = ModelRepository()
+        builtins.add_model(metamodel_from_str(GRAMMAR).model_from_str(files.get('dup.m', 'obj zz9')))
+        mm = metamodel_from_str(GRAMMAR, builtin_models=builtins)
+        where = 'string'
     inner = P.PlainNameImportURI()
 
     class Prov(P.ImportURI):
